@@ -12,7 +12,7 @@ import c18_threads
 
 PROPERTY = 'C18'
 MANIFEST = {
- 'level_text': 'Lean 4 theorems, kernel-checked, in two layers. (0) CPython heapq as used by the scheduler: heappush and heapify establish/keep the heap invariant, heappop returns an entry of minimal due time and leaves a heap that with it is a permutation of the old one, hence the choice of the heap is always a pick the scheduler model accepts. (1) A model of supybot.schedule.Schedule, for every sequence of addEvent/addPeriodicEvent/removeEvent/rescheduleEvent/run/reset calls and clock advances, every program of event functions that themselves add, remove, reschedule, add periodic events or raise while running, and every way the heap resolves ties: the name invariant (heap names = keys of events, no name twice) holds in every reachable state and therefore run() never raises; registrations = fired + removed + discarded + still scheduled as multisets with pairwise distinct registration ids (each event fires at most once, a removed event never fires, everything that fired was registered); nothing fires before its due time has passed, each iteration fires an entry of minimal due time, and when run() returns nothing due is left; a fired event carries the function and arguments of its registration, also after rescheduleEvent (repaired: it dropped them), which moves exactly that entry; a raising function ends only its own body; a periodic wrapper with occurrences left re-registers itself whether or not its function raised; threads: the placement of the lock is extracted and for every interleaving of critical sections (addEvent, removeEvent, iterations of run(), reset, by any threads) the invariant holds at every lock release, run() never raises and never fires early, registrations stay exactly-once (after three repairs of the lock placement). (2) A model of the Scheduler plugin on top (event table with its str(id)/name keys and the int-vs-str naming discipline, add/remind/remove/repeat/list, _flush and the pickle, die — repaired: it now takes the saved events out of the schedule —, _restoreEvents with kept ids and the already-scheduled test, load/unload/reload/restart, other plugins scheduling, run): an invariant of every reachable state and the whole-history law added = ran + removed + pending, each added never removed one-shot command runs exactly once (every scheduled closure belongs to the live instance and has its table entry, every table entry has its closure scheduled under int(key) or the name, ids ascending and below the counter, the pickle well formed), hence no command runs for a dead instance or misses its entry; reload with events pending leaves the table unchanged and schedules exactly one entry per pending event. Both layers are tied to /repo by differential runs: seeded programs/operation sequences on the real Schedule object, and seeded command sequences (scheduler add/remind/remove/repeat/list, reload/unload/load Scheduler by an owner over IRC, restarts, clock advances) on a live bot with the virtual clock; the heap\'s choices are fed to the models, which check each is a minimum; the property statement is evaluated directly on the implementation (for the plugin: through the replies — every added, never removed command runs exactly once) to produce replays.',
+ 'level_text': 'Lean 4 theorems, kernel-checked, in two layers. (0) CPython heapq as used by the scheduler: heappush and heapify establish/keep the heap invariant, heappop returns an entry of minimal due time and leaves a heap that with it is a permutation of the old one, hence the choice of the heap is always a pick the scheduler model accepts. (1) A model of supybot.schedule.Schedule, for every sequence of addEvent/addPeriodicEvent/removeEvent/rescheduleEvent/run/reset calls and clock advances, every program of event functions that themselves add, remove, reschedule, add periodic events or raise while running, and every way the heap resolves ties: the name invariant (heap names = keys of events, no name twice) holds in every reachable state and therefore run() never raises; registrations = fired + removed + discarded + still scheduled as multisets with pairwise distinct registration ids (each event fires at most once, a removed event never fires, everything that fired was registered); nothing fires before its due time has passed, each iteration fires an entry of minimal due time, and when run() returns nothing due is left; a fired event carries the function and arguments of its registration, also after rescheduleEvent (repaired: it dropped them), which moves exactly that entry; a raising function ends only its own body; a periodic wrapper with occurrences left re-registers itself whether or not its function raised; threads: the placement of the lock is extracted and for every interleaving of critical sections (addEvent, removeEvent, iterations of run(), reset, by any threads) the invariant holds at every lock release, run() never raises and never fires early, registrations stay exactly-once (after three repairs of the lock placement). The driver loop: drivers.run() removes a driver whose run() raises; over every history of API calls and rounds of drivers.run() the Schedule driver is never removed and each round leaves nothing due. (2) A model of the Scheduler plugin on top (event table with its str(id)/name keys and the int-vs-str naming discipline, add/remind/remove/repeat/list, _flush and the pickle, die — repaired: it now takes the saved events out of the schedule —, _restoreEvents with kept ids and the already-scheduled test, load/unload/reload/restart, other plugins scheduling, run): an invariant of every reachable state and the whole-history law added = ran + removed + pending, each added never removed one-shot command runs exactly once (every scheduled closure belongs to the live instance and has its table entry, every table entry has its closure scheduled under int(key) or the name, ids ascending and below the counter, the pickle well formed), hence no command runs for a dead instance or misses its entry; reload with events pending leaves the table unchanged and schedules exactly one entry per pending event. Both layers are tied to /repo by differential runs: seeded programs/operation sequences on the real Schedule object, and seeded command sequences (scheduler add/remind/remove/repeat/list, reload/unload/load Scheduler by an owner over IRC, restarts, clock advances) on a live bot with the virtual clock; the heap\'s choices are fed to the models, which check each is a minimum; the property statement is evaluated directly on the implementation (for the plugin: through the replies — every added, never removed command runs exactly once) to produce replays.',
  'level_note': 'Trusted: Lean kernel; axioms propext/Classical.choice/Quot.sound only; heapq is modelled (Heap.lean: heappush/heappop/heapify with _siftdown/_siftup in swap form, equal list after every call to the hole-moving reference code and to the C module the bot uses — compared on every run) and proved to keep the heap invariant and to pop a minimum, so the picks fed to the scheduler model are valid by theorem (heap_choice_is_valid_pick) and additionally checked per pop; str(int)/int(str) round trip for event ids (keys are modelled as Key.id n / Key.name s); the plugin model works on the abstract schedule justified by name_invariant (heap and events dict merged); the correspondence harnesses (generator quality bounds what they see); integer-valued virtual clock frozen during run(). Modelled: schedule.py completely except the lock; plugins/Scheduler/plugin.py: add, remind (as add), remove, repeat (--delay), list, _flush, die, _restoreEvents (incl. _getNextRunIn), the command/periodic closures with the instance that made them. Not modelled: unreadable or foreign pickles, old-format pickles without first_run/network, the text of the commands being replayed (C13/C14), non-Exception exceptions, event functions calling addPeriodicEvent(now=True) from inside a running event.',
  'technique': 'Lean 4 proof (induction over operation sequences and heap choices with invariants) + differential correspondence',
  'design_ref': 'DESIGN.md §6 C18',
@@ -24,7 +24,8 @@ THEOREMS = ['C18.name_invariant', 'C18.run_never_raises', 'C18.conservation', 'C
             'C18.reschedule_moves_entry', 'C18.plugin_invariant', 'C18.plugin_no_stale_runs',
             'C18.reload_keeps_events', 'C18.reload_each_exactly_once', 'C18.load_restores_invariant',
             'C18.lock_placement_ok', 'C18.threads_safe', 'C18.plugin_conservation', 'C18.plugin_exactly_once',
-            'C18.heap_push_ok', 'C18.heap_heapify_ok', 'C18.heap_pop_ok', 'C18.heap_choice_is_valid_pick']
+            'C18.heap_push_ok', 'C18.heap_heapify_ok', 'C18.heap_pop_ok', 'C18.heap_choice_is_valid_pick',
+            'C18.schedule_driver_stays', 'C18.drivers_round_completes']
 TRUSTED = ['Lean 4.33.0 kernel; axioms ⊆ {propext, Classical.choice, Quot.sound}',
            'CPython heapq.heappop returns an entry with minimal due time (mytuple compares due times only); checked on every pop of the run',
            'harness/c18.py generators, instrumentation (virtual clock, recording heapq proxy, recording addEvent/removeEvent wrappers, instrumented event functions), canonicalisation; hex line protocol']
@@ -363,9 +364,26 @@ def _do(self, op):
             elif k == 'run':
                 del self.picks[:]
                 self.pops = 0
-                try:
+                if len(op) > 1 and op[1]:
+                    # through the real drivers.run(), with this Schedule as the 'Schedule' driver
+                    d = self.drivers
+                    sv = (dict(d._drivers), set(d._deadDrivers), list(d._newDrivers))
+                    d._drivers.clear(); d._drivers['Schedule'] = S; d._deadDrivers.clear(); del d._newDrivers[:]
+                    try:
+                        d.run()
+                        alive = d._drivers.get('Schedule') is S and 'Schedule' not in d._deadDrivers
+                    finally:
+                        d._drivers.clear(); d._drivers.update(sv[0])
+                        d._deadDrivers.clear(); d._deadDrivers.update(sv[1])
+                        d._newDrivers[:] = sv[2]
+                    self.tags.add('via-drivers.run')
+                    if not alive:
+                        ret = 'dead'
+                        self.fail('drivers.run() removed the Schedule driver: Schedule.run() raised; nothing scheduled runs any more')
+                else:
+                  try:
                     S.run()
-                except Exception as e:
+                  except Exception as e:
                     self.fail('run() raised %s: %s (drivers.run would remove the Schedule driver for good)' % (type(e).__name__, e))
                     raise
                 late = [(n, r.t) for n, r in self.regs.items() if r.t < self.clk.t]
@@ -407,7 +425,7 @@ def model_line(op, picks=None):
     if k == 'resched': return 'resched\t%s\t%s' % (enc_name(op[1]), enc_time(op[2]))
     if k == 'periodic': return 'periodic\t%d\t%d\t%s\t%d\t%s\t%s' % (op[1], op[2], enc_name(op[3]), 1 if op[4] else 0,
                                                                   wire.enc_list(op[5]), enc_optnat(op[6]))
-    if k == 'run': return 'run\t%s' % (','.join(enc_name(p) for p in picks) or '-')
+    if k == 'run': return '%s\t%s' % ('drun' if len(op) > 1 and op[1] else 'run', ','.join(enc_name(p) for p in picks) or '-')
     if k == 'tick': return 'tick\t%d' % op[1]
     if k == 'reset': return 'reset'
     raise ValueError(op)
@@ -474,12 +492,12 @@ def gen_ops(r, P, maxlen=40):
             ops.append(['periodic', r.randrange(nfn), r.choice([0, 1, 3, 5, 10]), r.choice(NAMES), r.random() < 0.5,
                         r.choice(ARGS), r.choice([None, None, 0, 1, 2, 3])])
         elif x < 0.80:
-            ops.append(['run'])
+            ops.append(['run', 1] if r.random() < 0.5 else ['run'])
         elif x < 0.99:
             ops.append(['tick', r.choice([0, 1, 1, 2, 3, 5, 10, 30])])
         else:
             ops.append(['reset'])
-    ops.append(['tick', 25]); ops.append(['run'])
+    ops.append(['tick', 25]); ops.append(['run', 1])
     return ops
 
 # ------------------------------------------------------------------------------------------
